@@ -32,6 +32,15 @@ BUILT = {
             'lists (L <= 8, <= 15 chains, duplicates, cancellations, zero coefficients, charges) are compiled; the graph polynomial (sum over paths) must equal the sum of padded '
             'chains exactly; MPO conversion is judged by node-charge / nid_map / tensor-slice predicates and by the dense matrix of the polynomial under random charge-respecting operator maps.',
             'exact rational arithmetic for dyadic coefficients, 1e-12 relative for arbitrary floats; dense part limited to d^L <= 600', '4 (C05)'),
+    'C06': ('Hypothesis random search over (model, L, parameters incl. zeros and sign changes); differential oracle = textbook Hamiltonian built from occupation-number states / spin matrices',
+            'Exploration: every built-in lattice model and the linear fermionic operators for L = 1 .. dense reach with independently drawn parameters (zeros, +-1, +-0.5, generic) are compared '
+            'with an independently constructed dense reference; Hermiticity, block sparsity of every tensor, the charge selection rule of the dense matrix and the resolving power of the physical charges are judged.',
+            'dense reach d^L <= 1024 (4096 thorough); identically-zero operators excluded', '4 (C06)'),
+    'C07': ('enumeration of every orbital count in reach for both build paths + Hypothesis over coefficient structures and gauge rotations; Fock-space reference oracle (sparse)',
+            'Exploration: spinless L = 1..7 (9 thorough) optimized and 4.. explicit, spin-orbital L = 1..4 (5) optimized and 2..5 (6) explicit, with complex / real / masked / symmetric / zero-padded / '
+            'integer / one-body / two-body coefficient tensors, are compared in sparse form with a reference built from occupation-number states; the orbital gauge matrices are judged by the documented recipe '
+            'for every pair i and five families of 2x2 unitaries.',
+            'reach limited by the 4^L resp. 2^L Fock space; coefficient tensors that vanish identically excluded', '4 (C07)'),
     'C12': ('Hypothesis random search over designed-spectrum block matrices and boundary tolerances; independent dense-SVD oracle',
             'Exploration: generated block-sparse matrices with designed spectra (decaying, degenerate within/across blocks, rank deficient), '
             'tolerances at 0, random and exactly on cumulative weights, plus two-site tensor splits with all three distributions; judged against numpy '
@@ -55,6 +64,11 @@ BUILT = {
             'graph polynomial must equal the sum of padded trees / of automaton paths (independent DFS); consistency, length, pruning of dead states; dense forms of chains, trees, '
             'graphs (both directions) and of the converted MPO must equal the polynomial evaluated by Kronecker products.',
             'sampled programs, L <= 6; dense part d^L <= 729', '4 (C17)'),
+    'C20': ('Hypothesis over (model, L, seed) with three generic parameter draws; SVD-rank oracle with spectral-gap rule; structural bound for chain lists',
+            'Exploration: bond dimensions of the chain-, automaton- and optimized-molecular constructions are compared at every cut with the generic operator Schmidt rank '
+            '(maximum numerical rank over three independent parameter draws, accepted only with a spectral gap); chain lists: every layer width <= number of distinct non-zero chains; '
+            'simplify never increases a layer width and is idempotent.',
+            'dense reach d^L <= 256 (1024 thorough); generic = three draws', '4 (C20)'),
     'C18': ('exhaustive enumeration of all bipartite graphs up to 4x4 (5x5 thorough) + Hypothesis graph families; DP / Kuhn / weak-duality oracle',
             'Exploration, exhaustive for its finite scope: every edge set of every partition up to 4x4 (two edge orders; 5x5 in the thorough tier) is judged '
             'against a bitmask-DP optimum; random and adversarial families up to 60x60 are judged by validity predicates, an independent Kuhn matching and Koenig duality.',
